@@ -132,7 +132,8 @@ func units(tier string) []mc.Unit {
 		}
 		us = append(us, mc.Sliced(mc.Unit{Name: p.String(), Params: p}, n)...)
 	}
-	initials := [][]string{{"e", "e", "e"}, {"e", "-", "E"}, {"e", "e", "-", "e"}}
+	// the last chain ends in a run of event-less blocks: above its last event block nothing is tracked (bound 1 only)
+	initials := [][]string{{"e", "e", "e"}, {"e", "-", "E"}, {"e", "e", "-", "e"}, {"e", "-", "-"}}
 	forks := func(n int) []Mutation {
 		var out []Mutation
 		for d := 1; d <= 2 && d < n; d++ {
@@ -158,10 +159,17 @@ func units(tier string) []mc.Unit {
 					if tier == "quick" && (chunk == 1) != (ii == 0) {
 						continue
 					}
-					if chunk == 1 && ii == 2 { //nolint:mnd
+					if chunk == 1 && ii >= 2 { //nolint:mnd
 						continue // block-by-block download of the 4-block chain: dropped for the budget (the 3-block chains keep it)
 					}
 					// one reorg
+					if ii == 3 { //nolint:mnd
+						// the fork is followed by one more block: a node learns about the chain through the block NUMBER it polls,
+						// so a replacement of untracked event-less blocks by a fork of the same length is visible to it only once
+						// the chain grows again (a chain that never produces another block is not part of the quantifier)
+						add(params{ini, fin, []Mutation{f1, {"extend", 0, []string{"-"}}}, chunk, 1, 1, false})
+						continue
+					}
 					add(params{ini, fin, []Mutation{f1}, chunk, 1, bound, false})
 					if chunk == 10 && (tier == "thorough" || ii == 1) {
 						add(params{ini, fin, []Mutation{f1}, chunk, 1, 1, true}) // the same next to a second subscriber
